@@ -18,6 +18,7 @@ func (so *Sorts) Emb(owner types.Type, field string) string {
 	tb.DeclFun(name, []string{"Ref"}, "Ref")
 	un := tb.DeclFun("un"+name, []string{"Ref"}, "Ref")
 	tb.DeclFun("emb_tag", []string{"Ref"}, "Int")
+	tb.DeclFun("obj_base", []string{"Ref"}, "Ref")
 	id := len(so.embIDs) + 1
 	if so.embIDs == nil {
 		so.embIDs = map[string]int{}
@@ -28,6 +29,7 @@ func (so *Sorts) Emb(owner types.Type, field string) string {
 	tb.AddAxiom("emb "+name, tb.Quant(true, []*Term{p}, tb.And(
 		tb.Eq(tb.App(un, "Ref", e), p),
 		tb.Eq(tb.App("emb_tag", "Int", e), tb.Int(int64(id))),
+		tb.Eq(tb.App("obj_base", "Ref", e), tb.App("obj_base", "Ref", p)),
 		tb.Not(tb.Eq(e, tb.Const("null", "Ref")))), e))
 	return name
 }
